@@ -102,6 +102,9 @@ KEYWORDS = ['A', 'E', 'C', 'I', 'asset', 'info', 'let', 'extends', 'abstract', '
 PUNCT = ['{', '}', '(', ')', '[', ']', ',', '.', '->', '+>', '<-', '|', '&', '#', '*', '\\/', '/\\', '-', '<--', '-->',
          '..', ':', '=', '@', '!E', '+', '/', '^']
 ILLEGAL = ['$', '?', '%', '`', '~', ';', '\\', '!', '<', "'"]
+# characters no token and no white-space rule of mal.g4 matches, but which str.splitlines / str.strip / str.isspace /
+# universal newlines / Unicode normalisation treat as breaks or blanks
+EXOTIC_ILLEGAL = ['\x0c', '\x0b', '\x1c', '\x1d', '\x1e', '\x85', '\u2028', '\u2029', '\xa0', '\ufeff', '\u200b', '\x00', '\u3000', '\xe9']
 OPEN = {'{': '}', '(': ')', '[': ']'}
 
 
@@ -111,7 +114,7 @@ def mutate(rng, text, toks=None):
     if not toks:
         return 'empty', text
     kinds = ['delete', 'delete', 'duplicate', 'swap', 'insert-punct', 'insert-id', 'truncate', 'unbalance',
-             'keyword-as-id', 'illegal-char', 'delete-range', 'replace-punct']
+             'keyword-as-id', 'illegal-char', 'delete-range', 'replace-punct', 'exotic-char']
     k = rng.choice(kinds)
     i = rng.randrange(len(toks))
     ty, a, b, tx = toks[i]
@@ -153,6 +156,18 @@ def mutate(rng, text, toks=None):
     if k == 'illegal-char':
         pos = rng.choice([a, b + 1])
         return k, text[:pos] + rng.choice(ILLEGAL) + text[pos:]
+    if k == 'exotic-char':
+        # between two tokens, on a line of its own or replacing the blank after the token (a "page break")
+        c = rng.choice(EXOTIC_ILLEGAL)
+        pos = b + 1
+        form = rng.randrange(3)
+        if form == 0:
+            return k, text[:pos] + c + text[pos:]
+        if form == 1:
+            return k, text[:pos] + '\n' + c + '\n' + text[pos:]
+        if pos < len(text) and text[pos] in ' \n':
+            return k, text[:pos] + c + text[pos + 1:]
+        return k, text[:pos] + c + text[pos:]
     return 'delete', text[:a] + text[b + 1:]
 
 
